@@ -217,7 +217,8 @@ def check_true_guard(ctx, classes):
                    '%s)' % p.cond_text())
     # --- the leaf parser: TrueCheck only for '@'
     pc = prog.func(PARSER + '._parse_check')
-    en2 = Enumerator(prog, pc, handler_paths=True)
+    en2 = Enumerator(prog, pc, handler_paths=True,
+                     inline=c01.leaf_inline(prog))
     p2 = en2.run()
     prm = pc.params[0]
     for k in ("'!'", 'str', "''"):
@@ -287,7 +288,8 @@ def check_handlers(ctx):
     ctx.floor('C02.HANDLERS', nh, 1, 'handlers')
     # leaf parser fall-through
     pc = prog.func(PARSER + '._parse_check')
-    en = Enumerator(prog, pc, handler_paths=True)
+    en = Enumerator(prog, pc, handler_paths=True,
+                    inline=c01.leaf_inline(prog))
     for p in en.run():
         oc = c01.outcome_class(ctx, en, lambda fr: pc.module, p)
         if oc in ('true', 'false'):
@@ -352,46 +354,96 @@ def check_raise_catch(ctx, pstate):
 
 def check_each_value(ctx):
     prog = ctx.prog
+    from ..dte import Table, inline_helpers
     n = 0
+    pfq = POLICY + '.parse_file_contents'
     for name in ('load', 'from_dict'):
         f = prog.func(POLICY + '.Rules.' + name)
-        ok = False
-        detail = 'not every value of the mapping goes through parse_rule'
-        for node in ast.walk(f.node):
-            if isinstance(node, ast.DictComp) and len(node.generators) == 1:
-                g = node.generators[0]
-                if isinstance(g.target, ast.Tuple) and len(
-                        g.target.elts) == 2 and method_call(
-                            g.iter, 'items') and not g.ifs:
-                    kv, vv = U(g.target.elts[0]), U(g.target.elts[1])
-                    v = node.value
-                    if isinstance(v, ast.Call) and prog.resolve(
-                            f.module, v.func) == PARSER + '.parse_rule' and \
-                            len(v.args) == 1 and U(v.args[0]) == vv and \
-                            U(node.key) == kv:
-                        ok = True
-                        detail = 'every value is parsed with parse_rule'
-            if isinstance(node, ast.For) and isinstance(
-                    node.target, ast.Tuple) and method_call(
-                        node.iter, 'items'):
-                vv = U(node.target.elts[1])
-                for s in ast.walk(node):
-                    if isinstance(s, ast.Assign) and isinstance(
-                            s.targets[0], ast.Subscript) and isinstance(
-                                s.value, ast.Call) and prog.resolve(
-                                    f.module, s.value.func) == \
-                            PARSER + '.parse_rule' and U(
-                                s.value.args[0]) == vv:
-                        ok = True
-                        detail = 'every value is parsed with parse_rule'
+        t = Table(prog, f, inline=inline_helpers(
+            prog, modules={POLICY}, exclude={pfq}), comps=True,
+            handler_paths=False, max_depth=4)
+        src_param = f.params[1] if len(f.params) > 1 else None
+        good = 0
+        bad = None
+        for p in t.paths:
+            if p.outcome.kind != 'return' or p.outcome.expr is None:
+                continue
+            e = t.expand(p.outcome.expr)
+            if not (isinstance(e, ast.Call) and e.args and (
+                    U(e.func) == 'cls' or prog.resolve(
+                        t.module_of(p.outcome.frame), e.func)
+                    == POLICY + '.Rules')):
+                bad = bad or (p, 'does not build the rule store from the '
+                              'parsed mapping (%s)' % U(e)[:60])
+                continue
+            raw = p.outcome.expr
+            if isinstance(raw, ast.Name) and isinstance(
+                    t.en.defs.get(raw.id), ast.Call):
+                raw = t.en.defs[raw.id]
+            M = raw.args[0] if isinstance(raw, ast.Call) and raw.args \
+                else None
+            loops = []
+            for c in p.conds:
+                if c.kind != 'loop':
+                    continue
+                it = t.expand(c.expr)
+                mc = method_call(it, 'items') if isinstance(it, ast.Call) \
+                    else None
+                if not mc:
+                    continue
+                src = mc[0]
+                is_src = (name == 'from_dict' and U(src) == src_param) or (
+                    isinstance(src, ast.Call) and prog.resolve(
+                        f.module, src.func) == pfq) or (
+                    name == 'load' and isinstance(src, ast.Name)
+                    and src.id in f.params)
+                if is_src:
+                    loops.append(c)
+            if not loops:
+                bad = bad or (p, 'the given mapping is not walked entry by '
+                              'entry')
+                continue
+            c = loops[0]
+            if not c.pol:
+                continue
+            elem = None
+            for sym, d in t.en.defs.items():
+                if isinstance(d, tuple) and d and d[0] == 'elem' and \
+                        d[1] is c.expr:
+                    elem = sym
+            parsed = False
+            for ev in p.events:
+                if ev.kind != 'store' or not isinstance(ev.node,
+                                                        ast.Subscript):
+                    continue
+                if M is None or U(ev.node.value) != U(M):
+                    continue
+                v = t.expand(ev.value)
+                if isinstance(v, ast.Call) and prog.resolve(
+                        t.module_of(ev.frame), v.func) == \
+                        PARSER + '.parse_rule' and len(v.args) == 1 and \
+                        not v.keywords and U(v.args[0]) == '%s[1]' % elem \
+                        and U(ev.node.slice) == '%s[0]' % elem:
+                    parsed = True
+            if parsed:
+                good += 1
+            else:
+                bad = bad or (p, 'an entry of the mapping can reach the rule '
+                              'store without going through parse_rule, or '
+                              'not at all (path: %s)' % p.cond_text()[-160:])
         n += 1
-        ctx.ob('C02.EACH-VALUE', ok, ctx.where(f.module, f.node), f.qual,
-               'Rules.%s' % name, detail)
+        ok = bad is None and good > 0
+        ctx.ob('C02.EACH-VALUE', ok, '%s:%d' % (
+            ctx.where(f.module, f.node).split(':')[0], bad[0].outcome.line)
+            if bad else ctx.where(f.module, f.node), f.qual,
+            'Rules.%s' % name,
+            'every value is parsed with parse_rule' if ok else
+            'not every value of the mapping goes through parse_rule: %s' % (
+                bad[1] if bad else 'no parsing path found'))
     # the mapping that is parsed is the decoded file itself: nothing is
     # dropped or rewritten between the decoder and the rule parser
-    from ..dte import Table
     pf = prog.func(POLICY + '.parse_file_contents')
-    t = Table(prog, pf)
+    t = Table(prog, pf, inline=inline_helpers(prog, modules={POLICY}))
     bad = None
     for p in t.paths:
         if p.outcome.kind != 'return' or p.outcome.expr is None:
